@@ -20,7 +20,8 @@ reset, the unit-string cache is cleared as a whole (a key may mention the symbol
 so deleting the exact key is not enough) and the prefixed rows derived from the entry are dropped before it changes; (R3)
 lru_cache'd functions read no process-global registry state and their Unit arguments hash by the registry's content id,
 which is recomputed from the table; (R4) a Unit's value attributes are assigned only at construction, so units created
-before an edit keep their value."""
+before an edit keep their value.
+(R2, extended) the purge of derived rows recognises them by the writer's own product (entry scale * prefix value, ==); (R5) the memoised unit rules are found through Unit.__hash__, which must read the expression and the registry contents id (shared with C05-R2)."""
 LEVEL_NOTE = """Undecided: exhaustive exploration of edit/construct histories - the rule is the necessary condition that
 makes results history-independent. Not covered: UnitSystem.units_map memoisation against later edits of the registry the
 system was created with (noted), and _check_em_conversion reading unit_system_registry['mks'] (noted)."""
